@@ -309,3 +309,64 @@ def narrowing_cast_guarded(b, bi, operand_local):
     if sdr and sdr[2] == "assign" and sdr[3][2][0] == "bin" and sdr[3][2][1] == "Rem":
         return True
     return False
+
+
+def payload_key(body, l):
+    """identity of the *source place* a scalar local was read from, so that two separate reads `*len` of the same
+    pattern binding compare equal: ("place", json of the origin place) or ("local", root)."""
+    import json as _json
+    r = value_root(body, l)
+    o = body.origin(r)
+    if o and o[0] == "place":
+        return ("place", _json.dumps(o[1]))
+    return ("local", r)
+
+
+def sign_guarded(body, bi, l):
+    """Is the signed value in local `l` (cast to an unsigned type in block bi) known non-negative there?
+    Idioms: a dominating comparison of the same source value with a constant whose `small` arm cannot reach bi;
+    the value is the result of clamp(lo>=0, ..) / rem_euclid / unsigned_abs / abs / `%` on a non-negative / max(0, ..)."""
+    from .facts import op_const
+    key = payload_key(body, l)
+    for sb in range(len(body.blocks)):
+        sw = switch_on(body, sb)
+        if not sw or not body.dominates(sb, bi) or sb == bi:
+            continue
+        cl, neg, arms, other = sw
+        sd = body.single_def(cl)
+        if not sd or sd[2] != "assign" or sd[3][2][0] != "bin":
+            continue
+        rv = sd[3][2]
+        op, a, b_ = rv[1], rv[2], rv[3]
+        if op not in ("Gt", "Ge", "Lt", "Le"):
+            continue
+        la, lb = op_local(a), op_local(b_)
+        if la is not None and payload_key(body, la) == key and b_[0] == "k":
+            value_left = True
+        elif lb is not None and payload_key(body, lb) == key and a[0] == "k":
+            value_left = False
+        else:
+            continue
+        big_when_true = (op in ("Gt", "Ge")) == value_left
+        t_false = None
+        for v, tb in arms:
+            if v == 0:
+                t_false = tb
+        t_true = other
+        if neg:
+            t_true, t_false = t_false, t_true
+        small_t = t_false if big_when_true else t_true
+        if small_t is not None and bi not in body.reachable([small_t]):
+            return True
+    r = value_root(body, l)
+    sd = body.single_def(r)
+    if sd and sd[2] == "call":
+        c = body.call_at(sd[0])
+        short = c.name.split("::")[-1]
+        if short in ("rem_euclid", "unsigned_abs", "abs", "len", "count"):
+            return True
+        if short == "clamp" and len(c.args) == 3 and c.args[1][0] == "k" and (c.args[1][1].get("v") or 0) >= 0:
+            return True
+        if short == "max" and any(x[0] == "k" and (x[1].get("v") or 0) >= 0 for x in c.args):
+            return True
+    return False
